@@ -216,6 +216,15 @@ def parse_config(const_values):
         j = skip_group(i + 1)
         return "".join(toks[i:j]), j
 
+    def check_serde_attr(a, where, allowed):
+        """every `serde(..)` inside an attribute must be one of the shapes this part gives a meaning to; anything else
+        (rename, skip, skip_serializing_if, flatten, with, alias, ...) changes the serialised shape and fails closed"""
+        for inner in re.findall(r"serde\(([^()]*(?:\([^()]*\))?[^()]*)\)", a):
+            if not any(re.fullmatch(pat, inner) for pat in allowed):
+                fail(f"config.rs: {where}: serde attribute `serde({inner})` has no reading")
+        if "serde" in a and "serde(" not in a and "derive(" not in a:
+            fail(f"config.rs: {where}: attribute `{a}` mentions serde in a form that has no reading")
+
     def parse_type(i):
         # usize | bool | f32 | Ident | Option<NonZeroUsize>
         t = toks[i]
@@ -236,9 +245,12 @@ def parse_config(const_values):
             assert toks[i + 3] == "{"
             j = i + 4
             fields = []
+            for a in pending_attrs:
+                check_serde_attr(a, f"struct {name}", [r"default"])
             while toks[j] != "}":
                 if toks[j] == "#":
-                    _, j = attr_text(j)
+                    a, j = attr_text(j)
+                    check_serde_attr(a, f"struct {name}: field attribute", [])  # no field-level serde attribute has a reading
                     continue
                 if toks[j] != "pub":
                     fail(f"config.rs: struct {name}: non-pub field")
@@ -269,6 +281,7 @@ def parse_config(const_values):
                     while toks[j] != "}":
                         if toks[j] == "#":
                             a, j = attr_text(j)
+                            check_serde_attr(a, f"enum {name}::{vname}: field attribute", [r'default="[A-Za-z_0-9]+"'])
                             dm = re.search(r"serde\(default=\"([A-Za-z_0-9]+)\"\)", a)
                             if dm:
                                 fdefault = dm.group(1)
@@ -289,6 +302,7 @@ def parse_config(const_values):
                 variants.append((vname, vfields))
             tag = None
             for a in pending_attrs:
+                check_serde_attr(a, f"enum {name}", [r'tag="[a-z_]+"'])
                 tm = re.search(r"serde\(tag=\"([a-z_]+)\"\)", a)
                 if tm:
                     tag = tm.group(1)
@@ -4158,8 +4172,14 @@ class WrTx:
         return None
 
     def strip_conv(self, e):
-        """drop error-type conversions `.map_err(<path>)`"""
+        """drop the error-type conversions `.map_err(OutputError::<S>::from_sink)` / `.map_err(OutputError::<S>::ignore_sink_error)`:
+        ONLY these two paths (any other conversion function could swallow or replace the sink's error), and only while their
+        bodies in src/error.rs are the ones this reading was written for (`wr_check_conv_fns`)"""
         while e[0] == "mcall" and e[2] == "map_err" and len(e[3]) == 1 and e[3][0][0] == "path":
+            segs = [x for x in e[3][0][1] if isinstance(x, str)]
+            if not segs or segs[0] != "OutputError" or segs[-1] not in WR_CONV_FNS:
+                self.err("`.map_err(" + "::".join(str(x) for x in e[3][0][1]) + ")`: only OutputError::<S>::from_sink / ignore_sink_error are read as plain error-type conversions")
+            wr_check_conv_fns()
             e = e[1]
         return e
 
@@ -4905,6 +4925,27 @@ def repeatWhileEAux (c cex bex : Nat → Bool) : List Nat → Bool
   | t :: ts => cex t && (if c t then bex t && repeatWhileEAux c cex bex ts else true)
 def repeatWhileE (n : Nat) (c cex bex : Nat → Bool) : Bool := repeatWhileEAux c cex bex (List.range n)
 '''
+
+
+# error-type conversions that `strip_conv` may drop, with the body text (comments and whitespace removed) each must have in
+# src/error.rs: `from_sink` wraps the sink's error unchanged; `ignore_sink_error` maps the Range variant to itself and is only
+# applicable to sinks whose error type is uninhabited (`Infallible`)
+WR_CONV_FNS = {
+    "from_sink": "pub(crate)constfnfrom_sink(e:S::Error)->Self{Self::Sink(e)}",
+    "ignore_sink_error": "pub(crate)fnignore_sink_error<U>(err:OutputError<U>)->SelfwhereU:BitSink<Error=Infallible>,{matcherr{OutputError::Range(e)=>Self::Range(e),#[allow(unreachable_patterns)]OutputError::Sink(_)=>unreachable!(),}}",
+}
+_WR_CONV_CHECKED = []
+
+
+def wr_check_conv_fns():
+    if _WR_CONV_CHECKED:
+        return
+    src = strip_comments(open(os.path.join(REPO, "src", "error.rs")).read())
+    flat = re.sub(r"\s+", "", src)
+    for name, body in WR_CONV_FNS.items():
+        if body not in flat:
+            fail(f"error.rs: fn OutputError::{name}: body differs from the conversion the writer part reads it as")
+    _WR_CONV_CHECKED.append(True)
 
 
 def wr_fingerprint(toks):
@@ -7626,6 +7667,8 @@ def main():
             status["config"] = "ok"
         except Unreadable as e:
             status["config"] = f"translator cannot read {e}"
+        except Exception as e:  # fail closed on anything the parser did not anticipate
+            status["config"] = f"translator cannot read config.rs: internal error {type(e).__name__}: {e}"
     else:
         status["config"] = "translator cannot read config.rs: constants unavailable"
     try:
@@ -7724,7 +7767,7 @@ def main():
         status["par"] = f"translator cannot read par.rs: internal error {type(e).__name__}: {e}"
     try:  # hook for lpc (tools/translate_lpc.py: lpc.rs / arrayutils.rs / coding.rs / datatype.rs -> Gen/Lpc.lean)
         import translate_lpc
-        for dep in ("constants", "source"):
+        for dep in ("constants", "config", "source"):
             if status[dep] != "ok":
                 fail(f"lpc.rs: part `{dep}` failed (Gen/Lpc.lean imports its output)")
         write("Lpc.lean", translate_lpc.emit_lpc(sys.modules[__name__], status))
@@ -7734,7 +7777,7 @@ def main():
     except Exception as e:  # fail closed on anything the parser did not anticipate
         status["lpc"] = f"translator cannot read lpc.rs/arrayutils.rs/coding.rs/datatype.rs: internal error {type(e).__name__}: {e}"
     try:  # hook for rice (tools/translate_rice.py: rice.rs / arrayutils.rs -> Gen/Rice.lean)
-        for dep in ("constants", "source", "decode"):
+        for dep in ("constants", "config", "source", "decode"):
             if status[dep] != "ok":
                 fail(f"rice.rs: part `{dep}` failed (Gen/Rice.lean imports its output)")
         import translate_rice
@@ -7744,6 +7787,17 @@ def main():
         status["rice"] = f"translator cannot read {e}"
     except Exception as e:  # fail closed on anything the parser did not anticipate
         status["rice"] = f"translator cannot read rice.rs/arrayutils.rs: internal error {type(e).__name__}: {e}"
+    try:  # hook for callees (second file of tools/translate_rice.py: the callees of part `coding` in datatype.rs / source.rs -> Gen/CodingCallees.lean)
+        for dep in ("rice", "coding", "writer", "source"):
+            if status[dep] != "ok":
+                fail(f"datatype.rs/source.rs: part `{dep}` failed (Gen/CodingCallees.lean imports its output)")
+        import translate_rice
+        write("CodingCallees.lean", translate_rice.emit_callees(sys.modules[__name__], status, (order, consts, values)))
+        status["callees"] = "ok"
+    except Unreadable as e:
+        status["callees"] = f"translator cannot read {e}"
+    except Exception as e:  # fail closed on anything the parser did not anticipate
+        status["callees"] = f"translator cannot read datatype.rs/source.rs: internal error {type(e).__name__}: {e}"
     try:  # hook for parser (tools/translate_parser.py: component/parser.rs -> Gen/Parser.lean)
         import translate_parser
         for dep in ("constants", "headers", "writer", "verify", "decode"):
